@@ -477,3 +477,5 @@ _quick("C05", "C05_race", "a queued request (T = 3 s) behind a holder; in the de
 _quick("C16", "C16_twodb", "a log shared by two databases (ids 0 and 1, or 0 and 3): every program of 4 persisted operations out of {LOCK / UNLOCK in the first / in the second database}, rotation, the real compaction, restart: each database holds exactly what it held", ["-witness", "50"], reach=["end", "held"])
 _quick("C16", "C16_startup", "compaction at start-up: the real Aof.LoadAndInit on the log of a leader with holds in two databases; whenever the starting thread blocks the harness lets ONE more persistence-channel worker run until it blocks (database 0 first or database 1 first; vfBlockHook, vfRunToBlock), the start-up compaction runs right after LoadAndInit returns, the other workers after it; a second restart recovers every hold", [], reach=["end", "restarted"], native=False)
 _quick("C07", "C16_startup", "(also under C16) a restart whose start-up compaction runs while the log's replay is still queued in a persistence channel, then another restart: every persisted live hold is held again", [], reach=["end"], native=False)
+
+_quick("C03", "C03_sharedexpire", "three holders of a shared key (Count 2, E = 3 s, one optionally re-entered to depth 2); the oldest / middle / newest releases its hold (completely, or one level of two); 8 s through the real sweeps: no EXPRIED for the released one, exactly one for each of the others under its own RequestId, no other reply, nothing freed twice, counters back", ["-witness", "1"])
